@@ -323,7 +323,7 @@ theorem deleteNodes_set (f : LOHG O A) (ids ids' : List Nat) (hs : ∀ i, i ∈ 
 theorem deleteNodes_eraseDups (f : LOHG O A) (ids : List Nat) :
     LHG.deleteNodesWitness f.hypergraph ids = LHG.deleteNodesWitness f.hypergraph ids.eraseDups ∧
     LOHG.deleteNodes f ids = LOHG.deleteNodes f ids.eraseDups := by
-  have := deleteNodes_set f ids ids.eraseDups (fun i => List.mem_eraseDups.symm)
+  have := deleteNodes_set f ids ids.eraseDups (fun _ => List.mem_eraseDups.symm)
   exact ⟨this.1, this.2.2⟩
 
 /-- deleting nothing is the identity (on the bare hypergraph unconditionally; on the open
@@ -409,7 +409,7 @@ theorem deleteEdges_set (h : LHG O A) (ids ids' : List Nat) (hs : ∀ i, i ∈ i
 
 theorem deleteEdges_eraseDups (h : LHG O A) (ids : List Nat) :
     LHG.deleteEdges h ids = LHG.deleteEdges h ids.eraseDups :=
-  deleteEdges_set h ids ids.eraseDups (fun i => List.mem_eraseDups.symm)
+  deleteEdges_set h ids ids.eraseDups (fun _ => List.mem_eraseDups.symm)
 
 theorem deleteEdges_empty (h : LHG O A) (hlen : h.edges.length = h.adjacency.length) :
     LHG.deleteEdges h [] = .ok h := by
@@ -584,7 +584,6 @@ theorem step_ok_iff (f : D) (op : Op) (hwf : f.wf = true) :
       | _ => True) ∧
     step f op ≠ .none := by
   have hw := (owf_iff f).mp hwf
-  have hrej := delete_rejects_iff f
   cases op with
   | addEdgeSource e w =>
     simp only [step]
@@ -603,7 +602,7 @@ theorem step_ok_iff (f : D) (op : Op) (hwf : f.wf = true) :
   | deleteNodes ids =>
     simp only [step]
     by_cases hb : ∀ i ∈ ids, i < f.hypergraph.nodes.length
-    · rw [deleteNodesO_ok f ids hw hb]; simp [hb]
+    · rw [deleteNodesO_ok f ids hw hb]; simp; exact hb
     · have hbad : ∃ i ∈ ids, f.hypergraph.nodes.length ≤ i := by
         apply Classical.byContradiction
         intro hc; apply hb; intro i hi
@@ -613,7 +612,7 @@ theorem step_ok_iff (f : D) (op : Op) (hwf : f.wf = true) :
   | deleteEdges ids =>
     simp only [step]
     by_cases hb : ∀ i ∈ ids, i < f.hypergraph.edges.length
-    · rw [deleteEdges_ok _ ids hw.hg.len hb]; simp [hb]
+    · rw [deleteEdges_ok _ ids hw.hg.len hb]; simp; exact hb
     · have hbad : ∃ i ∈ ids, f.hypergraph.edges.length ≤ i := by
         apply Classical.byContradiction
         intro hc; apply hb; intro i hi
@@ -660,6 +659,34 @@ theorem run_wf (f : D) (hr : Reachable f) : f.wf = true := by
 theorem run_wf_empty (ops : List Op) (hv : ValidRun LOHG.empty ops) :
     ∃ f', run LOHG.empty ops = .ok f' ∧ f'.wf = true :=
   run_wf_from LOHG.empty ops (by decide) hv
+
+/-- a concrete valid history (hypothesis of `run_wf_from` / `Reachable`) -/
+example : ValidRun LOHG.empty [.newNode 10, .newOperation 5 [11] [12], .unify 0 1, .deleteNodes [0, 0],
+    .addEdgeSource 0 13, .deleteEdges [0]] := by
+  refine ⟨trivial, fun f1 h1 => ?_⟩
+  cases h1
+  refine ⟨trivial, fun f2 h2 => ?_⟩
+  cases h2
+  refine ⟨by decide, fun f3 h3 => ?_⟩
+  cases h3
+  refine ⟨by decide, fun f4 h4 => ?_⟩
+  have e4 : f4 = ⟨[], [], ⟨[11, 12], [5], [⟨[0], [1]⟩], ([], [])⟩⟩ := by
+    have : step (withH (withH (withH LOHG.empty (LHG.empty.newNode 10).1)
+      ((LHG.empty.newNode 10).1.newOperation 5 [11] [12]).1)
+      ((withH (withH LOHG.empty (LHG.empty.newNode 10).1)
+        ((LHG.empty.newNode 10).1.newOperation 5 [11] [12]).1).hypergraph.unify 0 1))
+      (.deleteNodes [0, 0]) = .ok ⟨[], [], ⟨[11, 12], [5], [⟨[0], [1]⟩], ([], [])⟩⟩ := by decide
+    rw [this] at h4
+    cases h4; rfl
+  subst e4
+  refine ⟨by decide, fun f5 h5 => ?_⟩
+  have e5 : f5 = ⟨[], [], ⟨[11, 12, 13], [5], [⟨[0, 2], [1]⟩], ([], [])⟩⟩ := by
+    have : step (⟨[], [], ⟨[11, 12], [5], [⟨[0], [1]⟩], ([], [])⟩⟩ : D) (.addEdgeSource 0 13) =
+        .ok ⟨[], [], ⟨[11, 12, 13], [5], [⟨[0, 2], [1]⟩], ([], [])⟩⟩ := by decide
+    rw [this] at h5
+    cases h5; rfl
+  subst e5
+  exact ⟨by decide, fun _ _ => trivial⟩
 
 /-- a concrete valid history exercising every call -/
 example : run LOHG.empty
